@@ -264,20 +264,38 @@ fn in_domain(env: &mut Env, p: &Pools, s: &Surf, h: usize, w: usize) -> bool {
     true
 }
 
-fn overlap_free(env: &mut Env, p: &Pools, s: &Surf, h: usize, w: usize) -> bool {
-    let mut count = vec![vec![0u32; w]; h];
+/// (two images, an image and a wide character, two wide characters) occupy a common cell
+fn overlap_kinds(env: &mut Env, p: &Pools, s: &Surf, h: usize, w: usize) -> (bool, bool, bool) {
+    let mut ni = vec![vec![0u32; w]; h];
+    let mut nw = vec![vec![0u32; w]; h];
     for (r0, row) in s.iter().enumerate() {
         for (c0, c) in row.iter().enumerate() {
             if let Some((eh, ew)) = env.extent(p, *c) {
                 for r in r0..(r0 + eh).min(h) {
                     for cc in c0..(c0 + ew).min(w) {
-                        count[r][cc] += 1;
+                        if c.k == 0 {
+                            nw[r][cc] += 1;
+                        } else {
+                            ni[r][cc] += 1;
+                        }
                     }
                 }
             }
         }
     }
-    count.iter().all(|row| row.iter().all(|n| *n <= 1))
+    let mut k = (false, false, false);
+    for r in 0..h {
+        for c in 0..w {
+            k.0 |= ni[r][c] >= 2;
+            k.1 |= ni[r][c] >= 1 && nw[r][c] >= 1;
+            k.2 |= nw[r][c] >= 2;
+        }
+    }
+    k
+}
+
+fn overlap_free(env: &mut Env, p: &Pools, s: &Surf, h: usize, w: usize) -> bool {
+    overlap_kinds(env, p, s, h, w) == (false, false, false)
 }
 
 // ---------------------------------------------------------------- running one history
@@ -442,7 +460,7 @@ fn run(p: &Pools, input: &Value) -> Case {
     chars.insert(0x20);
     let mut glyph_ids: BTreeSet<(u32, u8)> = BTreeSet::new();
     let mut dom = true;
-    let mut ovl = false;
+    let mut kinds = (false, false, false);
     let (mut has_wide, mut has_img, mut has_glyph, mut has_shadow_edit) = (false, false, false, false);
     for op in &ops {
         if let Op::Draw(s) = op {
@@ -466,9 +484,8 @@ fn run(p: &Pools, input: &Value) -> Case {
             if !in_domain(&mut env, p, s, h, w) {
                 dom = false;
             }
-            if !overlap_free(&mut env, p, s, h, w) {
-                ovl = true;
-            }
+            let k = overlap_kinds(&mut env, p, s, h, w);
+            kinds = (kinds.0 | k.0, kinds.1 | k.1, kinds.2 | k.2);
             for row in s {
                 for i in 1..row.len() {
                     if row[i - 1].k == 0 && env.width(row[i - 1].v) == 2 && row[i] != BLANK {
@@ -478,7 +495,8 @@ fn run(p: &Pools, input: &Value) -> Case {
             }
         }
     }
-    let overlap = dom && ovl;
+    let kinds = (dom && kinds.0, dom && kinds.1, dom && kinds.2);
+    let overlap = kinds.0 || kinds.1 || kinds.2;
     let widths = clist(chars.iter().map(|c| format!("({}, {})", c, env.width(*c))));
     let mut isizes: Vec<String> =
         env.isize.clone().iter().enumerate().map(|(i, (a, b))| format!("({}, ({}, {}))", i, a, b)).collect();
@@ -513,7 +531,13 @@ fn run(p: &Pools, input: &Value) -> Case {
     let mut j = json!({"h": h, "w": w, "ops": ops_json(&ops)});
     j["impl"] = impl_json;
     if overlap {
-        j["known_class"] = json!(["Overlap"]);
+        let mut tags = vec![];
+        for (on, name) in [(kinds.0, "OverlapImages"), (kinds.1, "OverlapWideImage"), (kinds.2, "OverlapWide")] {
+            if on {
+                tags.push(name);
+            }
+        }
+        j["known_class"] = json!(tags);
     }
     let mut tags = vec![
         format!("cells={}", match h * w { 0..=4 => "1-4", 5..=16 => "5-16", 17..=36 => "17-36", _ => "37-72" }),
@@ -539,7 +563,8 @@ fn run(p: &Pools, input: &Value) -> Case {
     Case {
         coq: format!(
             "Hist {} {} {} {} {} {} {} {} {} {}",
-            h, w, widths, clist(isizes), fsp, fer, ers, ops_coq, impl_coq, cbool(overlap)
+            h, w, widths, clist(isizes), fsp, fer, ers, ops_coq, impl_coq,
+            format!("{} {} {}", cbool(kinds.0), cbool(kinds.1), cbool(kinds.2))
         ),
         json: j,
         tags,
@@ -750,15 +775,40 @@ pub fn generate(rng: &mut Rng, n: usize, _tier: &str) -> Vec<Value> {
     (0..n).map(|_| gen_history(&mut rng, &p)).collect()
 }
 
+/// the operations before the first Draw of a surface with overlapping objects
+fn overlap_free_prefix(p: &Pools, input: &Value) -> Option<Value> {
+    let h = input["h"].as_u64().unwrap_or(1) as usize;
+    let w = input["w"].as_u64().unwrap_or(1) as usize;
+    let ops = ops_parse(&input["ops"]);
+    let mut env = Env::new(p, h, w);
+    let cut = ops.iter().position(|o| match o {
+        Op::Draw(s) => s.len() == h && s.iter().all(|r| r.len() == w) && !overlap_free(&mut env, p, s, h, w),
+        _ => false,
+    })?;
+    if cut == 0 {
+        return None;
+    }
+    Some(json!({"h": h, "w": w, "ops": ops_json(&ops[..cut])}))
+}
+
 pub fn batch(inputs: &[Value]) -> Batch {
     let p = pools();
+    let mut cases = vec![];
+    for i in inputs {
+        // a history with overlapping objects is judged as a whole under its known class, and
+        // (as a separate, unclassified case) up to the first overlapping surface
+        if let Some(prefix) = overlap_free_prefix(&p, i) {
+            cases.push(run(&p, &prefix));
+        }
+        cases.push(run(&p, i));
+    }
     Batch {
         prop: "C01",
         coq_import: "Corr.C01Corr",
         case_type: "c01_case",
         report_fn: "c01_report",
         rule: "history with at least two frames in which the renderer issued at least one command; distinct by (size, operations)",
-        cases: inputs.iter().map(|i| run(&p, i)).collect(),
+        cases,
         preamble: String::new(),
     }
 }
